@@ -8,6 +8,8 @@ Behavioural invariance under renaming is NOT decided. Decided structural clauses
               order-insensitive or the table is sorted
   3 SPELL     lowering/emission do not branch on the spelling of a user identifier (capitalisation heuristics)
   4 REGISTRY  every nominal declaration kind (model, class, newtype) registers its name for constructor detection
+  5 ESCKEY    the escaped spelling never reaches a map / set lookup or a name comparison (metadata is keyed by the
+              Incan name)
 """
 import re
 
